@@ -83,7 +83,8 @@ Section GenericServer.
     st_live : bool;              (* the handler serves the subscription *)
     st_at : vstate;              (* register at subscription *)
     st_evs : list vevent;        (* events published since, oldest first *)
-    st_open : bool               (* not yet cancelled by the client *)
+    st_open : bool;              (* not yet cancelled by the client *)
+    st_reading : bool            (* the client's reader keeps receiving (false once it has stalled) *)
   }.
 
   Record sstate := mkSS { ss_v : vstate; ss_streams : list stream }.
@@ -94,23 +95,39 @@ Section GenericServer.
   | QGet (name : string) (mask : option rmask)
   | QUpdate (name : string) (q : request)
   | QPull (name : string) (mask : option rmask) (updates_only : bool)   (* stream number = streams opened before *)
-  | QCancel (i : nat).                                                  (* the client cancels stream i *)
+  | QCancel (i : nat)                                                   (* the client cancels stream i *)
+  | QStall (i : nat).                                                   (* the reader of stream i stops receiving (the call stays open) *)
 
   Inductive sresp :=
   | PGet (r : option M + Z)
   | PUpdate (r : M + Z)
   | POpened
-  | PCancelled.
+  | PCancelled
+  | PStalled.
 
   Definition routed (name : string) : bool := existsb (String.eqb name) devs.
 
   Definition deliver (evs : list vevent) (st : stream) : stream :=
-    if st_open st && st_routed st
-    then mkSt (st_name st) (st_ro st) (st_routed st) (st_live st) (st_at st) (st_evs st ++ evs) true
+    if st_open st && st_routed st && st_reading st
+    then mkSt (st_name st) (st_ro st) (st_routed st) (st_live st) (st_at st) (st_evs st ++ evs) true true
     else st.
 
   Definition close (st : stream) : stream :=
-    mkSt (st_name st) (st_ro st) (st_routed st) (st_live st) (st_at st) (st_evs st) false.
+    mkSt (st_name st) (st_ro st) (st_routed st) (st_live st) (st_at st) (st_evs st) false (st_reading st).
+
+  (* the reader stops calling Recv: nothing more is observed of the stream.  Value.onUpdate puts
+     minibus.DropExcess between the bus and every subscriber that did not ask for back-pressure, so a
+     reader that does not keep up never holds a writer (or another subscriber) back: for everything
+     else the stream might as well not be there *)
+  Definition stall (st : stream) : stream :=
+    mkSt (st_name st) (st_ro st) (st_routed st) (st_live st) (st_at st) (st_evs st) (st_open st) false.
+
+  Fixpoint stall_at (i : nat) (l : list stream) : list stream :=
+    match l, i with
+    | [], _ => []
+    | st :: r, O => stall st :: r
+    | st :: r, S i' => st :: stall_at i' r
+    end.
 
   Fixpoint cancel_at (i : nat) (l : list stream) : list stream :=
     match l, i with
@@ -131,9 +148,10 @@ Section GenericServer.
         else (s, PUpdate (inr code_not_found))
     | QPull name mask uo =>
         (mkSS (ss_v s)
-              (ss_streams s ++ [mkSt name (mkR mask uo None) (routed name) (live (v_val (ss_v s))) (ss_v s) [] true]),
+              (ss_streams s ++ [mkSt name (mkR mask uo None) (routed name) (live (v_val (ss_v s))) (ss_v s) [] true true]),
          POpened)
     | QCancel i => (mkSS (ss_v s) (cancel_at i (ss_streams s)), PCancelled)
+    | QStall i => (mkSS (ss_v s) (stall_at i (ss_streams s)), PStalled)
     end.
 
   Fixpoint run (s : sstate) (qs : list sreq) : sstate * list sresp :=
@@ -165,7 +183,9 @@ Arguments QGet {rmask request}.
 Arguments QUpdate {rmask request}.
 Arguments QPull {rmask request}.
 Arguments QCancel {rmask request}.
+Arguments QStall {rmask request}.
 Arguments PGet {M}.
 Arguments PUpdate {M}.
 Arguments POpened {M}.
 Arguments PCancelled {M}.
+Arguments PStalled {M}.
